@@ -724,11 +724,42 @@ def check(run: Run) -> None:
                         "recorded in `created`: after a failed growth the replacement combiners already started in the inactive bank keep running until the storage is destroyed "
                         "at executor release", loc=fa.loc(lams[0]))
 
+    with run.obligation("C14.l", "K2", "a failure recorded during a best-effort clean-up pass reaches the caller: every function that collects stop errors in a FirstExceptionRecorder "
+                        "rethrows the first one after the pass (`recorder.rethrow_if_any()` on the normal exit) - the one exception is the recorder of the start ROLLBACK, "
+                        "whose enclosing guard runs while the original start error is already propagating"):
+        ROLLBACK_ONLY = {("src/hgraph/runtime/graph.cpp", "rollback_failures")}
+        n_rec = 0
+        for rel in (RT + "executor.cpp", RT + "graph.cpp", RT + "map_node.cpp", RT + "reduce_node.cpp", RT + "mesh_node.cpp", RT + "tsl_map_node.cpp", RT + "switch_node.cpp",
+                    RT + "ordered_reduce_node.cpp", RT + "nested_graph_node.cpp", RT + "try_except_node.cpp"):
+            fi_ = t.file(rel)
+            if "FirstExceptionRecorder" not in t.read(rel):
+                continue
+            for fd_ in fi_.funcs:
+                if fd_.body is None or "FirstExceptionRecorder" not in fi_.text(fd_.body[0], fd_.body[1]):
+                    continue
+                if any(o is not fd_ and o.body is not None and o.body[0] > fd_.body[0] and o.body[1] < fd_.body[1] and "FirstExceptionRecorder" in fi_.text(o.body[0], o.body[1]) for o in fi_.funcs):
+                    continue
+                fa_ = R.parse(run, fd_, strict=False)
+                cn_ = R.Canon()
+                for st in [x for x in fa_.body.walk() if isinstance(x, C.Decl) and "FirstExceptionRecorder" in str(x.type)]:
+                    for d in st.decls:
+                        n_rec += 1
+                        run.count(1, "C14.l")
+                        if (rel, d.name) in ROLLBACK_ONLY:
+                            continue
+                        captures = [c for c in R.calls(fa_, "capture") if isinstance(c.fn, C.Member) and cn_(c.fn.obj) == d.name]
+                        rethrows = [c for c in R.calls(fa_, "rethrow_if_any") if isinstance(c.fn, C.Member) and cn_(c.fn.obj) == d.name]
+                        if captures and not rethrows:
+                            run.finding("C14.l", f"{fd_.name}:{d.name}:recorded-stop-error-discarded", f"{fd_.qual} records clean-up failures in `{d.name}` but never rethrows them: a node whose "
+                                        "stop hook failed is reported as a successful run", loc=fa_.loc(st))
+        run.sites(n_rec, 5, "FirstExceptionRecorder locals")
+
 
 ANYARGS = ("anyargs",)
 
 
 VARIANTS = [
+    {"id": "l-seed-C14-8-reduce-stop-error-discarded", "expect": "C14.l", "edits": [{"file": RT + "reduce_node.cpp", "find": "            failures.rethrow_if_any();", "replace": ""}]},
     {"id": "k-seed-C14-7-bank-change-rollback-keeps-created", "expect": "C14.k", "edits": [{"file": RT + "reduce_node.cpp", "find": "                if (bank_changed)\n                {\n                    for (const std::size_t position : created)\n                    {\n                        reset_combiner_noexcept(current_bank, position);\n                    }\n                    storage.combiners    = std::move(retired_shape);", "replace": "                if (bank_changed)\n                {\n                    storage.combiners    = std::move(retired_shape);"}]},
     {"id": "j-seed-C14-6-lookup-after-reset", "expect": "C14.j", "edits": [{"file": RT + "switch_node.cpp", "find": "    GraphValue *active = storage.active_graph();\n    bind_branch_output(view, context, spec, next, evaluation_time, true);\n    if (active != nullptr && active->has_value()) {\n      active->view().stop(evaluation_time);\n    }\n    storage.previous_slot = storage.active_slot;\n    storage.active_slot.reset();\n    storage.active_key = Value{};\n    storage.active_spec = nullptr;", "replace": "    bind_branch_output(view, context, spec, next, evaluation_time, true);\n    storage.previous_slot = storage.active_slot;\n    storage.active_slot.reset();\n    storage.active_key = Value{};\n    storage.active_spec = nullptr;\n    if (GraphValue *active = storage.active_graph();\n        active != nullptr && active->has_value()) {\n      active->view().stop(evaluation_time);\n    }"}]},
     {"id": "i-retired-generation-stopped-with-new-count", "expect": "C14.i", "edits": [{"file": "src/hgraph/runtime/ordered_reduce_node.cpp", "find": "            storage.stop_generation(old_bank, old_count);\n            storage.current_bank = next_bank;\n            storage.live_count = next_count;\n", "replace": "            storage.current_bank = next_bank;\n            storage.live_count = next_count;\n            storage.stop_generation(old_bank, storage.live_count);\n"}]},
